@@ -24,6 +24,7 @@ import DfolsVerif.Accept.DiagAcc
 import DfolsVerif.Proofs.DiagTable
 import DfolsVerif.Proofs.MainLoopPaths
 import DfolsVerif.Proofs.CtrlPaths
+import DfolsVerif.Proofs.SolveMainPaths
 
 namespace Dfols
 namespace C18
@@ -389,6 +390,14 @@ theorem C18_src_geom_fix_evaluates :
 theorem C18_src_did_fix_geom_guarded {tr : List String} {e : Skel.Ending} (hx : Skel.Exec Gen.mainLoop tr e) :
     MainLoopPaths.mGeomGuard.run 0 tr ≠ 3 :=
   MainLoopPaths.geomguard_trace hx
+
+/-- **one table row per iteration** (whole-function skeleton of solve_main, every execution, any number of iterations): the only
+    method that appends a row to the diagnostic table is called at most once between two `current_iter += 1` and never outside the
+    main loop — with `C18_diag_rectangular` (every column grows with that call, and only then): consecutive iteration numbers, one
+    row each -/
+theorem C18_src_one_row_per_iteration {tr : List String} {e : SkelL.Ending} (hx : SkelL.Exec Gen.solveMainBody tr e) :
+    (SolveMainPaths.mD.run ⟨false, 0, false⟩ tr).bad = false :=
+  SolveMainPaths.one_row_per_iteration hx
 
 end C18
 end Dfols
